@@ -9,6 +9,7 @@ import (
 	"container/heap"
 	"errors"
 	"fmt"
+	"net"
 	"net/netip"
 	"os"
 	"sync"
@@ -106,28 +107,29 @@ func (h *pktHeap) Pop() any {
 
 // Wire is one shared medium.
 type Wire struct {
-	mu         sync.Mutex
-	epoch      time.Time
-	world      World
-	Sources    []*SimSource
-	Sinks      []*SimSink
-	Ledger     []Event
-	all        []*pkt
-	nextSeq    int
-	nextTag    int
-	Faults     []Fault
-	Fired      []*InjectedErr // sentinels of fired fatal faults, in firing order
-	FiredOther int            // fired non-fatal faults
-	FiredList  []Fault        // every fault that fired, in order
-	FiltersOff bool
-	NoLoopback bool
-	WriteLag   time.Duration // virtual duration of every WriteTo call
-	BufMutated []string      // WriteTo buffers that changed during the call
-	nFaultID   int
-	sinkMade   int
-	srcMade    int
-	Returned   bool // set by the harness when the entry point returned; later ops are recorded as violations
-	LateOps    []string
+	mu           sync.Mutex
+	epoch        time.Time
+	world        World
+	Sources      []*SimSource
+	Sinks        []*SimSink
+	Ledger       []Event
+	all          []*pkt
+	nextSeq      int
+	nextTag      int
+	Faults       []Fault
+	PortProblems []string       // source ports that no socket of the process held while probes were sent from them
+	Fired        []*InjectedErr // sentinels of fired fatal faults, in firing order
+	FiredOther   int            // fired non-fatal faults
+	FiredList    []Fault        // every fault that fired, in order
+	FiltersOff   bool
+	NoLoopback   bool
+	WriteLag     time.Duration // virtual duration of every WriteTo call
+	BufMutated   []string      // WriteTo buffers that changed during the call
+	nFaultID     int
+	sinkMade     int
+	srcMade      int
+	Returned     bool // set by the harness when the entry point returned; later ops are recorded as violations
+	LateOps      []string
 	// virtual-time watchdog: after MaxVirtual every I/O call fails, so a run that would never end does
 	MaxVirtual time.Duration
 	Overrun    bool
@@ -280,13 +282,33 @@ func (w *Wire) newSource() (packets.Source, error) {
 // ---- sink ----
 
 type SimSink struct {
-	w      *Wire
-	idx    int
-	addr   netip.Addr
-	closed bool
-	Closes int
-	nWrite int
-	nClose int
+	w           *Wire
+	idx         int
+	addr        netip.Addr
+	closed      bool
+	Closes      int
+	nWrite      int
+	nClose      int
+	portChecked bool
+}
+
+// portIsFree tries to bind the address/port with the real kernel (and lets go at once).
+func portIsFree(kind string, a netip.Addr, port uint16) bool {
+	ap := netip.AddrPortFrom(a, port)
+	if kind == "udp" {
+		c, err := net.ListenUDP("udp", net.UDPAddrFromAddrPort(ap))
+		if err != nil {
+			return false
+		}
+		c.Close()
+		return true
+	}
+	l, err := net.ListenTCP("tcp", net.TCPAddrFromAddrPort(ap))
+	if err != nil {
+		return false
+	}
+	l.Close()
+	return true
 }
 
 func (s *SimSink) WriteTo(buf []byte, dst netip.AddrPort) error {
@@ -316,6 +338,14 @@ func (s *SimSink) WriteTo(buf []byte, dst netip.AddrPort) error {
 		ev.PErr = perr.Error()
 	}
 	w.log(ev)
+	if perr == nil && p != nil && !s.portChecked && (p.Kind == "udp" || p.Kind == "tcp-syn") {
+		// the source port is what tells concurrent runs apart: while a run's probes are on the wire the port must
+		// be held by a socket of this process, otherwise the kernel may hand it to the next run
+		s.portChecked = true
+		if free := portIsFree(p.Kind, p.IP.Src, p.SPort); free {
+			w.PortProblems = append(w.PortProblems, fmt.Sprintf("handle %d sends %s probes from %s port %d, but no socket of the process holds that port (the kernel may hand it to a concurrent run)", s.idx, p.Kind, p.IP.Src, p.SPort))
+		}
+	}
 	var ss []Sched
 	if !w.NoLoopback {
 		ss = append(ss, Sched{Data: raw, Tag: Tag{Class: "own"}})
